@@ -134,6 +134,7 @@ type Datum struct {
 	Var string `json:"var"`
 	Key Bytes  `json:"key"`
 	Val Bytes  `json:"val"`
+	Lvl int    `json:"-"` // chain level the datum was matched at (real runs only)
 }
 
 type Intr struct {
@@ -160,9 +161,9 @@ type Outcome struct {
 
 // Case is one line emitted by Engine_MC.
 type Case struct {
-	Scen   Scen    `json:"scen"`
-	RxMode string  `json:"rxMode"`
-	Out    Outcome `json:"out"`
+	Scen   Scen            `json:"scen"`
+	RxMode json.RawMessage `json:"rxMode"`
+	Out    Outcome         `json:"out"`
 }
 
 // Key is a canonical, order-insensitive (for match data and TX) rendering of an outcome,
@@ -177,7 +178,7 @@ func (o *Outcome) Key(opts ProjOpts) string {
 			if opts.FoldMDKeys {
 				k = strings.ToLower(k)
 			}
-			if i < len(o.Fired) && opts.BlankKeys[o.Fired[i]] {
+			if i < len(o.Fired) && opts.BlankKeys[o.Fired[i]] != nil && (opts.BlankKeys[o.Fired[i]][d.Lvl] || opts.BlankKeys[o.Fired[i]][-1]) {
 				k = ""
 			}
 			ss[j] = fmt.Sprintf("%s|%q|%q", d.Var, k, string(d.Val))
@@ -206,11 +207,14 @@ func (o *Outcome) Key(opts ProjOpts) string {
 
 // ProjOpts selects what part of the outcome a family compares.
 type ProjOpts struct {
-	FoldMDKeys bool         // compare match-data keys case-insensitively
-	DedupMD    bool         // compare match data as sets (multiMatch: a transformation may over-report "changed")
-	BlankKeys  map[int]bool // rule ids whose match-data keys are not compared (count targets: the key text is unspecified)
-	NoTX       bool
-	NoDetIntr  bool
+	FoldMDKeys bool // compare match-data keys case-insensitively
+	DedupMD    bool // compare match data as sets (multiMatch: a transformation may over-report "changed")
+	// BlankKeys: rule id -> chain level -> true when that link only has count targets (the key
+	// reported for a count is unspecified and not compared). Level -1 = every level (used for
+	// outcomes that do not carry levels, i.e. the specification's own, where such keys are empty anyway).
+	BlankKeys map[int]map[int]bool
+	NoTX      bool
+	NoDetIntr bool
 }
 
 // Features lists the language features a scenario uses (for signatures and coverage counts).
@@ -305,15 +309,18 @@ func dedup(ss []string) []string {
 // ProjFor derives the projection a scenario needs from its features.
 func ProjFor(s *Scen, base ProjOpts) ProjOpts {
 	p := base
-	p.BlankKeys = map[int]bool{}
+	p.BlankKeys = map[int]map[int]bool{}
 	for _, r := range s.Rules {
-		for _, l := range r.Links {
+		for li, l := range r.Links {
 			if l.MM {
 				p.DedupMD = true
 			}
 			for _, t := range l.Targets {
 				if t.Count {
-					p.BlankKeys[r.ID] = true
+					if p.BlankKeys[r.ID] == nil {
+						p.BlankKeys[r.ID] = map[int]bool{}
+					}
+					p.BlankKeys[r.ID][li] = true
 				}
 			}
 		}
